@@ -550,10 +550,11 @@ func (a *Anchors) Dump() {
 	println("missing:", strings.Join(a.Missing, "; "))
 }
 
-// MissingFor returns the unresolved anchors that matter for one property: the anchor table (shared by all path rules)
-// and the field keys that the property's own, shared and borrowed rules mention.
+// MissingFor returns the unresolved anchors that matter for one property: the field keys that the property's own,
+// shared and borrowed rules mention. Entries of the classification table whose field no longer exists (a.Missing) are
+// not among them: they classify nothing any more and are reported as a note.
 func (a *Anchors) MissingFor(prop string) []string {
-	out := append([]string{}, a.Missing...)
+	var out []string
 	for _, k := range ruleKeysByProp[prop] {
 		if a.M.FieldByKey(k) == nil {
 			dup := false
